@@ -259,6 +259,40 @@ fn shapes(spec: &[Kw], prod_cap: usize) -> Vec<Shape> {
     out
 }
 
+/// range: every combination of (absent | boundary integer) for start, end, step_by
+fn range_boundary_shapes() -> Vec<Shape> {
+    let pool: Vec<Option<Value>> = std::iter::once(None)
+        .chain(
+            [
+                0i128, 1, -1, 2, -2, 5, -7, 99_999, 100_000, 100_001, -100_000,
+                i128::MAX, i128::MAX - 1, i128::MAX - 2, i128::MIN, i128::MIN + 1, i128::MIN + 2,
+                1i128 << 126, -(1i128 << 126), (1i128 << 126) + 1, i64::MAX as i128, i64::MIN as i128,
+            ]
+            .into_iter()
+            .map(|z| Some(Value::from(z))),
+        )
+        .collect();
+    let mut out = Vec::new();
+    for a in &pool {
+        for b in &pool {
+            for c in &pool {
+                let mut sh: Shape = Vec::new();
+                if let Some(v) = a {
+                    sh.push(("start", v.clone()));
+                }
+                if let Some(v) = b {
+                    sh.push(("end", v.clone()));
+                }
+                if let Some(v) = c {
+                    sh.push(("step_by", v.clone()));
+                }
+                out.push(sh);
+            }
+        }
+    }
+    out
+}
+
 fn generic_shapes() -> Vec<Shape> {
     let mut out: Vec<Shape> = vec![vec![]];
     for v in pools::kind_pool() {
@@ -524,6 +558,100 @@ fn read_names() -> Result<(Vec<String>, Vec<String>, Vec<String>), String> {
     Ok((list("builtin_filters")?, list("builtin_tests")?, list("builtin_functions")?))
 }
 
+/// `range` law checked on the implementation: when the exact progression is representable and
+/// within the cap the call must succeed with exactly that progression; otherwise it must fail.
+/// Returns a description of the deviation, if any.
+fn range_law(sh: &Shape, o: &Outcome<Value>) -> Option<(&'static str, String)> {
+    let mut start = 0i128;
+    let mut end: Option<i128> = None;
+    let mut step = 1i128;
+    for (k, v) in sh {
+        let z = match i128::try_from(v.clone()) {
+            Ok(z) => z,
+            Err(_) => return None, // argument errors are the matrix's business
+        };
+        match *k {
+            "start" => start = z,
+            "end" => end = Some(z),
+            "step_by" => step = z,
+            _ => {}
+        }
+    }
+    let end = end?;
+    let must_fail = step == 0 || (start > end && step > 0);
+    let len: u128 = if must_fail {
+        0
+    } else if step > 0 {
+        (end as u128).wrapping_sub(start as u128).div_ceil(step as u128)
+    } else if start <= end {
+        0
+    } else {
+        (start as u128).wrapping_sub(end as u128).div_ceil(step.unsigned_abs())
+    };
+    match o {
+        Outcome::Ok(v) => {
+            if must_fail || len > 100_000 {
+                return Some(("range:accepted-what-it-must-refuse", format!("expected an error, {len} terms")));
+            }
+            let a = v.as_array()?;
+            let mut cur = start;
+            if a.len() as u128 != len {
+                return Some(("range:wrong-length", format!("{} terms instead of {len}", a.len())));
+            }
+            for x in a {
+                if x.as_i128() != Some(cur) {
+                    return Some(("range:wrong-term", format!("term {x} instead of {cur}")));
+                }
+                cur = cur.wrapping_add(step);
+            }
+            None
+        }
+        Outcome::Err(..) => {
+            if !must_fail && len <= 100_000 {
+                Some(("range:span-overflow-refused", format!("a representable progression of {len} terms within the cap was refused")))
+            } else {
+                None
+            }
+        }
+        Outcome::Panic(_) => None,
+    }
+}
+
+/// Known-finding class of a cell (used when model and implementation disagree on it): `range`
+/// arguments on which the checked length computation of functions.rs overflows.
+fn cell_kf(c: &Cell) -> Option<&'static str> {
+    if c.bk != BK::Function || c.name != "range" {
+        return None;
+    }
+    let mut start = 0i128;
+    let mut end: Option<i128> = None;
+    let mut step = 1i128;
+    for (k, v) in &c.sh {
+        let z = i128::try_from(v.clone()).ok()?;
+        match *k {
+            "start" => start = z,
+            "end" => end = Some(z),
+            "step_by" => step = z,
+            _ => {}
+        }
+    }
+    let end = end?;
+    let overflow = if step > 0 && start <= end {
+        end.checked_sub(start).and_then(|s| s.checked_add(step - 1)).is_none()
+    } else if step < 0 && start > end {
+        step.checked_neg().and_then(|st| start.checked_sub(end).and_then(|s| s.checked_add(st - 1))).is_none()
+    } else {
+        false
+    };
+    if overflow { Some("range:span-overflow-refused") } else { None }
+}
+
+fn bump(counts: &mut BTreeMap<String, usize>, key: &str) -> bool {
+    let n = counts.entry(key.to_string()).or_default();
+    *n += 1;
+    *n <= 20
+}
+
 const ARITH: &[&str] = &["range", "abs", "int", "float", "round", "odd", "even", "divisible_by", "nth", "truncate", "indent", "pluralize", "length"];
 
 fn digest(o: &Outcome<Value>) -> String {
@@ -587,7 +715,13 @@ fn main() {
                 continue;
             }
             let shs = match spec(bk, name) {
-                Some(sp) => shapes(&sp, if name == "range" { 14 } else { 6 }),
+                Some(sp) => {
+                    let mut v = shapes(&sp, if name == "range" { 14 } else { 6 });
+                    if bk == BK::Function && name == "range" {
+                        v.extend(range_boundary_shapes());
+                    }
+                    v
+                }
                 None => {
                     unknown.push(name.clone());
                     generic_shapes()
@@ -647,6 +781,9 @@ fn main() {
     let mut big_range_sent = 0usize;
     let mut pending: Vec<(usize, String, serde_json::Value, bool, Vec<String>)> = Vec::new();
     let quick_target = 4000usize;
+    // known-finding classes are reported 20 times each at most (all are counted), so that they
+    // cannot crowd a new failure out of the bounded failure list
+    let mut kf_counts: BTreeMap<String, usize> = BTreeMap::new();
     // C17_MODEL_CAP=n: soft cap on the thorough tier's model-side cells (strata are always sent); unset = all
     let model_cap: Option<usize> = std::env::var("C17_MODEL_CAP").ok().and_then(|x| x.parse().ok());
 
@@ -677,6 +814,21 @@ fn main() {
                 }
             }
         }
+        if c.bk == BK::Function && c.name == "range" {
+            meta.oracle_checks += 1;
+            if let Some((kf, what)) = range_law(&c.sh, &o).filter(|(kf, _)| bump(&mut kf_counts, kf)) {
+                meta.oracle_fail(&format!("range: {what}"), Some(kf), cell_desc(c, recv, &o));
+            }
+        }
+        if c.bk == BK::Filter && c.name == "round" {
+            // conversions agree with exact arithmetic or fail: a finite number must not round to NaN/inf
+            if let (Outcome::Ok(v), Ok(x)) = (&o, f64::try_from(recv.clone())) {
+                meta.oracle_checks += 1;
+                if x.is_finite() && v.as_f64().map_or(false, |r| !r.is_finite()) && bump(&mut kf_counts, "round:non-finite-result") {
+                    meta.oracle_fail("round: finite receiver rounded to a non-finite value", Some("round:non-finite-result"), cell_desc(c, recv, &o));
+                }
+            }
+        }
         let nontrivial = !(c.sh.is_empty() && cls == "invalid");
         let eligible = has_model(c.bk, &c.name) && !cell_unmodelled(c.bk, &c.name, recv);
         // results too large to print as a Gallina term are compared on the implementation side only
@@ -703,7 +855,8 @@ fn main() {
         let under_cap = model_cap.map_or(true, |cap| sink.count < cap);
         if (thorough && under_cap) || fresh {
             per_builtin.entry(key).or_default()[2] += 1;
-            sink.push(cell_gallina(c, recv, &o), cell_desc(c, recv, &o), nontrivial, None, &tags.iter().map(|s| s.as_str()).collect::<Vec<_>>());
+            let kf = cell_kf(c);
+            sink.push(cell_gallina(c, recv, &o), cell_desc(c, recv, &o), nontrivial, kf, &tags.iter().map(|s| s.as_str()).collect::<Vec<_>>());
         } else {
             pending.push((ci, key, json!(null), nontrivial, tags));
         }
@@ -725,7 +878,7 @@ fn main() {
             let recv = &recvs[c.ri];
             let o = run_cell(&tera, c.bk, &c.name, recv, &c.sh);
             per_builtin.entry(key).or_default()[2] += 1;
-            sink.push(cell_gallina(c, recv, &o), cell_desc(c, recv, &o), nontrivial, None, &tags.iter().map(|s| s.as_str()).collect::<Vec<_>>());
+            sink.push(cell_gallina(c, recv, &o), cell_desc(c, recv, &o), nontrivial, cell_kf(c), &tags.iter().map(|s| s.as_str()).collect::<Vec<_>>());
         }
     }
 
@@ -800,6 +953,7 @@ fn main() {
     meta.extra.insert("builtins_without_kwarg_spec".into(), json!(unknown));
     meta.extra.insert("per_builtin_cells_eligible_sent".into(), json!(per_builtin));
     meta.extra.insert("debug_profile_rerun".into(), json!(debug_status));
+    meta.extra.insert("law_oracle_deviations_by_class".into(), json!(kf_counts));
     meta.families.push(sink.finish());
     meta.write(&args.out);
 }
